@@ -32,8 +32,71 @@ func c14WaitDelivery(dst, src *c14WS, ids map[string]bool, max time.Duration) (c
 	return c14Msg{}, false
 }
 
+// c14WireForm: how the probing client puts its text messages on the wire. --max-message-bytes limits
+// the message; the frames it travels in and an extension that re-encodes its bytes are the
+// client's choice (it only has to offer the extension; whether the server accepts is the server's).
+type c14WireForm struct {
+	Name   string // r.Variant of the msgsize round ("" = one client with default framing, nothing offered)
+	Opt    c14DialOpt
+	Random bool // padding hardly compressible instead of one repeated character
+}
+
+var c14WireForms = []c14WireForm{
+	{Name: "wire=frames<=64B", Opt: c14DialOpt{WriteBuf: 64}},
+	{Name: "wire=deflate-offered,runs", Opt: c14DialOpt{OfferDeflate: true}},
+	{Name: "wire=deflate-offered,random", Opt: c14DialOpt{OfferDeflate: true}, Random: true},
+	{Name: "wire=deflate-offered+frames<=64B,runs", Opt: c14DialOpt{OfferDeflate: true, WriteBuf: 64}},
+}
+
+// the forms also driven with --max-message-bytes 0
+var c14WireFormsZero = []string{"wire=frames<=64B", "wire=deflate-offered,runs", "wire=deflate-offered,random"}
+
+func c14WireFormOf(variant string) c14WireForm {
+	for _, f := range c14WireForms {
+		if f.Name == variant {
+			return f
+		}
+	}
+	return c14WireForm{}
+}
+
+// c14GenWireRounds: msgsize rounds in which the sender of the probes uses another wire form.
+func c14GenWireRounds(e *Env) []c14Round {
+	rng := vk.NewRng(e.Seed ^ vk.HashStr("c14wire"+e.Tier))
+	var out []c14Round
+	small := c14Small()
+	zb := small
+	zb.Name, zb.MaxBytes = "zero-max-message-bytes", 0
+	for m := 0; m < e.Pick(2, 12); m++ {
+		for _, f := range c14WireForms {
+			out = append(out, c14Round{Cfg: small, Kind: "msgsize", Variant: f.Name, Seed: rng.U64()})
+		}
+		for _, name := range c14WireFormsZero {
+			out = append(out, c14Round{Cfg: zb, Kind: "msgsize", Variant: name, Seed: rng.U64()})
+		}
+	}
+	if e.Thorough() {
+		for c := 0; c < 8; c++ {
+			v := small
+			v.Name = fmt.Sprintf("wvar%d", c)
+			v.MaxBytes = []int{256, 512, 4096, 16384, 65536}[rng.Intn(5)]
+			v.Timeout = time.Duration(2000+rng.Intn(2000)) * time.Millisecond
+			for _, f := range c14WireForms {
+				out = append(out, c14Round{Cfg: v, Kind: "msgsize", Variant: f.Name, Seed: rng.U64()})
+			}
+		}
+	}
+	return out
+}
+
 func (x *c14Run) roundMsgSize(r c14Round, srv *c14Server) {
 	e, cfg := x.e, r.Cfg
+	form := c14WireFormOf(r.Variant)
+	formName, keySuffix := "wire=default", ""
+	if form.Name != "" {
+		formName, keySuffix = form.Name, ":"+form.Name
+	}
+	socketsDeflate, sockets := 0, 0
 	sess, host, ok := x.hostOnly(r, srv)
 	if !ok {
 		return
@@ -49,6 +112,10 @@ func (x *c14Run) roundMsgSize(r c14Round, srv *c14Server) {
 		sizes = []int{L / 2, L - 1, L, L + 1, L + 2, 2 * L, 4*L + 7, 70000}
 	} else {
 		sizes = []int{1025, 4096, 65535, 65536, 65537, 65600, 100000, 1 << 20}
+	}
+	if form.Opt.OfferDeflate && cfg.MaxBytes > 0 {
+		// were the offer accepted, messages of these sizes would travel in far fewer bytes than the limit
+		sizes = append(sizes, 64*cfg.MaxBytes+1, 1<<18)
 	}
 	rng := vk.NewRng(r.Seed)
 	caseSpec := map[string]any{"round": r, "flags": cfg.flags()}
@@ -68,14 +135,22 @@ func (x *c14Run) roundMsgSize(r c14Round, srv *c14Server) {
 			}
 			rotations++
 		}
-		rcv := x.receiverRetry(srv, sess.Code)
+		rcv := x.receiverRetryOpt(srv, sess.Code, form.Opt)
 		if !rcv.Upgraded() {
 			e.R.Inconcl(fmt.Sprintf("%s %s: receiver could not connect: %v", r.ID, r.key(), rcv.brief()))
 			return
 		}
+		sockets++
+		if strings.Contains(rcv.Ext, "permessage-deflate") {
+			socketsDeflate++
+		}
 		bigID := fmt.Sprintf("big-%d-%x", size, rng.U64())
 		markID := fmt.Sprintf("mark-%d-%x", size, rng.U64())
-		frame := c14Envelope(bigID, host.PeerID, size)
+		var fill *vk.Rng
+		if form.Random {
+			fill = rng.Fork()
+		}
+		frame := c14EnvelopeFill(bigID, host.PeerID, size, fill)
 		size = len(frame) // what is actually put on the wire
 		err1 := rcv.WS.SendText(frame)
 		var err2 error
@@ -98,6 +173,10 @@ func (x *c14Run) roundMsgSize(r c14Round, srv *c14Server) {
 			continue
 		}
 		p := map[string]any{"frame_bytes": len(frame), "delivered": delivered, "sender_socket_closed_by_server": closed, "marker_without_frame": markerOnly}
+		if form.Name != "" {
+			p["message_bytes"], p["wire_form"], p["extensions_accepted_by_server"] = len(frame), form.Name, rcv.Ext
+			delete(p, "frame_bytes")
+		}
 		if delivered {
 			p["delivered_bytes_at_peer"] = m.Len
 		}
@@ -112,7 +191,7 @@ func (x *c14Run) roundMsgSize(r c14Round, srv *c14Server) {
 				largestDelivered = size
 			}
 			if cfg.MaxBytes > 0 && size > cfg.MaxBytes {
-				e.R.Violate("limit:max-message-bytes:exceeded", fmt.Sprintf("a text frame of %d bytes was delivered to the peer with --max-message-bytes %d", size, cfg.MaxBytes), caseSpec, p)
+				e.R.Violate("limit:max-message-bytes:exceeded"+keySuffix, fmt.Sprintf("a text message of %d bytes (%s) was delivered to the peer with --max-message-bytes %d", size, formName, cfg.MaxBytes), caseSpec, p)
 			}
 		case closed || markerOnly:
 			decided++
@@ -120,7 +199,7 @@ func (x *c14Run) roundMsgSize(r c14Round, srv *c14Server) {
 				smallestRefused = size
 			}
 			if cfg.MaxBytes == 0 {
-				e.R.Violate("limit:max-message-bytes:zero", fmt.Sprintf("--max-message-bytes 0 (no limit) but a text frame of %d bytes was not delivered and the server closed the sender's socket (frames up to %d bytes were delivered)", size, largestDelivered), caseSpec, p)
+				e.R.Violate("limit:max-message-bytes:zero"+keySuffix, fmt.Sprintf("--max-message-bytes 0 (no limit) but a text message of %d bytes ("+formName+") was not delivered and the server closed the sender's socket (frames up to %d bytes were delivered)", size, largestDelivered), caseSpec, p)
 			}
 		default:
 			e.R.Inconcl(fmt.Sprintf("%s %s: frame of %d bytes neither delivered nor refused within the wait", r.ID, r.key(), size))
@@ -132,14 +211,30 @@ func (x *c14Run) roundMsgSize(r c14Round, srv *c14Server) {
 		return
 	}
 	obs := map[string]any{"round": r.key(), "max_message_bytes": cfg.MaxBytes, "probes": probes, "largest_delivered": largestDelivered, "smallest_refused": smallestRefused, "session_rotations": rotations}
-	x.st.sample("msgsize", obs)
-	if cfg.MaxBytes > 0 {
-		x.st.limit("max-message-bytes", cfg.MaxBytes, largestDelivered, len(sizes))
+	cls := "limited"
+	if cfg.MaxBytes == 0 {
+		cls = "zero"
+	}
+	if form.Name == "" {
+		x.st.sample("msgsize", obs)
 	} else {
-		x.st.limit("max-message-bytes:zero", 0, largestDelivered, len(sizes))
+		obs["wire_form"], obs["probe_sockets"], obs["probe_sockets_on_which_the_server_accepted_permessage-deflate"] = form.Name, sockets, socketsDeflate
+		if form.Opt.OfferDeflate {
+			x.st.sample("msgsize-deflate-offered", obs)
+		} else {
+			x.st.sample("msgsize-wire", obs)
+		}
+	}
+	if cfg.MaxBytes > 0 {
+		x.st.limit("max-message-bytes"+keySuffix, cfg.MaxBytes, largestDelivered, len(sizes))
+	} else {
+		x.st.limit("max-message-bytes:zero"+keySuffix, 0, largestDelivered, len(sizes))
 	}
 	x.st.count("msgsize:probes_decided", decided)
+	x.st.count("msgsize:"+formName+":probe_sockets", sockets)
+	x.st.count("msgsize:"+formName+":probe_sockets_on_which_the_server_accepted_permessage-deflate", socketsDeflate)
 	if decided >= len(sizes)-1 {
+		x.st.count("msgsize:decided:"+cls+":"+formName, 1)
 		x.decided(r)
 	}
 }
